@@ -43,15 +43,19 @@
 (*           package-format error) comes out and NOTHING changes (error    *)
 (*           atomicity) -- every later answer is the stateless one.        *)
 (*           Domain (FaultDomOf): the part's tarball has been opened by an *)
-(*           earlier successful query and the part is not gz-compressed.   *)
-(*           Outside of it the standard library itself is not restartable  *)
-(*           (tarfile.open(mode='r:*') leaves the member position where a  *)
-(*           foreign exception hit it; gzip re-reads its header after a    *)
-(*           backward seek and loses the two magic bytes): unspecified --  *)
-(*           the object is `tainted` until it is opened again; no answer   *)
-(*           of a tainted object is ever a verdict.  Early EOF / short     *)
-(*           reads are indistinguishable from a truncated package: never   *)
-(*           generated.                                                    *)
+(*           earlier successful query and the part is stored UNCOMPRESSED  *)
+(*           (tarfile then reads header by header straight from the ar     *)
+(*           member, which seeks before every read).  Outside of it the    *)
+(*           standard library itself is not restartable: tarfile.open(     *)
+(*           mode='r:*') leaves the member position where a foreign        *)
+(*           exception hit it; gzip re-reads its header after a backward   *)
+(*           seek and loses the two magic bytes; the BufferedReader inside *)
+(*           BZ2File / LZMAFile keeps a stale position when a forward seek *)
+(*           (= read and discard) fails half way and then returns bytes of *)
+(*           the wrong offset.  Unspecified -- the object is `tainted`     *)
+(*           until it is opened again; no answer of a tainted object is    *)
+(*           ever a verdict.  Early EOF / short reads are indistinguishable*)
+(*           from a truncated package: never generated.                    *)
 (*   strm    parts whose sequential decompression stream was rewound       *)
 (*           behind the reader's back; scan: lazily walked name index of   *)
 (*           has_file (the code has neither).                              *)
@@ -156,7 +160,7 @@ Poison(out) == IF "map" \in DOMAIN out
                ELSE [out EXCEPT !.blob = 0]
 
 \* where a fault of the caller's file object is specified to leave no trace
-FaultDomOf(prt, p, opened) == opened /\ D!DComp(D!DNameOf(prt, p)) # "gz"
+FaultDomOf(prt, p, opened) == opened /\ D!DComp(D!DNameOf(prt, p)) = ""
 FaultDom(o, p) == FaultDomOf(objs[o].prts, p, THit(o, p) # {})
 \* what a faulted query may raise: the caller's own exception object, or the package-format error
 FaultExc == {"caller", "DebError"}
@@ -270,7 +274,10 @@ Fault(o, q, args) ==
     /\ UNCHANGED <<objs, gen, tcache, ccache, rmemo, last, strm>>
 
 Next == \/ \E o \in Objs :
-            \/ \E p \in HParts, sp \in D!Spellings, n \in HNames : HasFile(o, p, sp, n) \/ GetContent(o, p, sp, n)
+            \* (closed model: while a file is half read the queries use the plain spelling only -- the spelling
+            \*  plays no role for fh; all three are explored in the states without a half-read file)
+            \/ \E p \in HParts, sp \in D!Spellings, n \in HNames :
+                  (fh = <<>> \/ sp = "plain") /\ (HasFile(o, p, sp, n) \/ GetContent(o, p, sp, n))
             \/ Scripts(o) \/ Md5sums(o) \/ DebControl(o)
             \/ \E p \in HParts, sp \in D!Spellings, n \in RNames : ReadBegin(o, p, sp, n)
             \* (closed model: one call that names a member and one that does not stand for ArKinds; faults
